@@ -375,6 +375,11 @@ def run(ctx):
                 ok = e[0] == "call" and e[1].rsplit("::", 1)[-1] == fn and len(e[2]) == 2 and all(
                     x[0] in ("place", "ref") and F.place_fields(x[1])[-1:] == [(adt, src)] for x in e[2])
                 seen.add((adt, fld))
+                if not ok and not (e[0] == "call" and e[1].rsplit("::", 1)[-1] in ("opt_min", "opt_max", "min", "max", "min_by", "max_by")):
+                    # the combination is written out (a match / if-else over the two operands): not one of the known combinators,
+                    # so it is neither confirmed nor refuted here (the Option-min lint below still applies)
+                    ctx.info("C08-R1", "intersect:%s.%s is combined by an inline expression (not judged)" % (adt.rsplit("::", 1)[1], fld))
+                    continue
                 ctx.check(ok, "C08-R1", "intersect:%s.%s" % (adt.rsplit("::", 1)[1], fld), "%s = %s(a.%s, b.%s)" % (fld, fn, src, src),
                           "Schema::intersect combines %s.%s with `%s`: the intersection of two schemas is no longer the tighter bound"
                           % (adt.rsplit("::", 1)[1], fld, F.fmt_expr(e)), site=isect.where(bi))
